@@ -18,7 +18,7 @@ def plan_C12(ctx, rt):
             rt.log("VIOLATION property=C12 replay=%s" % rp); return 1
         rt.log("TOOL-ERROR: MCCrash did not complete"); return 2
     stride = 5 if tier == "quick" else 1
-    kinds = "messages,send,ownmsg,commit,race,proposal,own,welcome,create,txatomic"
+    kinds = "messages,send,ownmsg,commit,race,proposal_admin,proposal_member,own_merge,own_echo,merge_data,welcome,create,txatomic"
     if ctx.get("replay"):
         rp = json.load(open(ctx["replay"])); stride = rp["stride"]; kinds = rp["kinds"]; seed = rp["seed"]
     tr = os.path.join(rt.OUT, "traces" if rt.REPO == "/repo" else "traces_alt_%d" % os.getpid(), "C12_%s.ndjson" % tier)
